@@ -172,7 +172,70 @@ def judge(api, op, ds, rules, seed, degenerate=False):
     return "returned" if nontrivial else "returned-trivial", None, n
 
 
+LAT = [(x, y) for x in (0, 7, 13, 20) for y in (0, 6, 11, 20)]
+
+
+def evaluate_skiafail(case):
+    """'When the underlying engine cannot compute an operation an error is raised instead of a wrong
+    path being returned': enumerate every closed contour of two cubics with control points on a 4x4
+    lattice, keep those on which Skia's own simplify() gives up, and require picosvg to raise (or to
+    return the right region) on them."""
+    import pathops
+
+    outs = collections.Counter()
+    nts = set()
+    viols = []
+    n = 0
+    p0 = LAT[case["i0"]]
+    for a in LAT[case["alo"] : case["ahi"]]:
+        for b, p1, c, d in itertools.product(LAT, LAT[8:12], LAT, LAT):
+            n += 1
+            sk = pathops.Path(fillType=pathops.FillType.WINDING)
+            sk.moveTo(*p0)
+            sk.cubicTo(*a, *b, *p1)
+            sk.cubicTo(*c, *d, *p0)
+            sk.close()
+            try:
+                sk.simplify(fix_winding=True)
+                continue
+            except pathops.PathOpsError:
+                pass
+            dstr = f"M{p0[0]},{p0[1]} C{a[0]},{a[1]} {b[0]},{b[1]} {p1[0]},{p1[1]} C{c[0]},{c[1]} {d[0]},{d[1]} {p0[0]},{p0[1]} Z"
+            variants = [dstr]
+            # the same contour inside a covering square (either direction): regions of winding 2 / 0,
+            # where a self-overlapping path handed back untouched is visibly not a simplified one
+            for sq in ("M-5,-5 L25,-5 L25,25 L-5,25 Z", "M-5,-5 L-5,25 L25,25 L25,-5 Z"):
+                sk2 = pathops.Path(fillType=pathops.FillType.WINDING)
+                sk2.moveTo(*p0)
+                sk2.cubicTo(*a, *b, *p1)
+                sk2.cubicTo(*c, *d, *p0)
+                sk2.close()
+                q = [tuple(float(v) for v in t.split(",")) for t in sq.replace("M", "").replace("Z", "").replace("L", " ").split()]
+                sk2.moveTo(*q[0])
+                for pt in q[1:]:
+                    sk2.lineTo(*pt)
+                sk2.close()
+                try:
+                    sk2.simplify(fix_winding=True)
+                except pathops.PathOpsError:
+                    variants.append(dstr + " " + sq)
+            for dstr in variants:
+              for api in ("pathops", "path"):
+                for rule in RULES:
+                    o, why, np_ = judge(api, "remove_overlaps", [dstr], [rule], case["seed"], True)
+                    outs["skiafail/" + o] += 1
+                    if len(dstr) > 90:
+                        outs["skiafail-in-square/" + o] += 1
+                    nts.add(core.h64(dstr + api + rule))
+                    if why and len(viols) < 6:
+                        viols.append({"sig": {"kind": "wrong-region-where-skia-fails", "api": api, "op": "remove_overlaps"}, "case": {"fam": "one", "api": api, "op": "remove_overlaps", "ds": [dstr], "rules": [rule], "deg": True}, "detail": {"why": f"Skia's simplify() raises PathOpsError on {dstr!r}; {api}.remove_overlaps({rule}) returned a path instead: {why}"}})
+    outs["skiafail/scanned"] += n
+    return {"n": n, "outs": outs, "nts": nts, "viol": viols}
+
+
 def evaluate(case):
+    if case.get("fam") == "skiafail":
+        return evaluate_skiafail(case)
     outs = collections.Counter()
     nts = set()
     viols = []
@@ -253,6 +316,9 @@ def all_items(tier, seed):
 
 
 def cases(tier, seed):
+    for i0 in range(1 if tier == "quick" else 4):
+        for alo in range(0, 16, 2):
+            yield {"fam": "skiafail", "i0": i0, "alo": alo, "ahi": alo + 2, "seed": seed}
     batch = []
     for it in all_items(tier, seed):
         batch.append(list(it))
